@@ -51,7 +51,7 @@ def sub(argv, timeout, tag):
 
 def run_condition(mod, c):
     scale = float(os.environ.get("VF_TIMEOUT_SCALE", "1"))     # smoke runs of a tier (recorded in the evidence as bounds.timeout_scale)
-    if scale != 1:
+    if scale != 1 and c.get("kind") != "twin":          # reachability twins keep their full budget
         c = dict(c, timeout=max(5, int(c["timeout"] * scale)))
     argv = [PY, "-m", "vf.chrun", mod, c["name"], str(c["timeout"])]
     if c.get("per_path"):
